@@ -228,10 +228,36 @@ def gen_overlap(rng, seed, tier):
             t = end - 1
         return int(t) if prog["clock"] == "int" else t
     directed = None
+    stalled_start = False
+    end_then = False
     if shape < 0.08:
         directed = _pause_then_step(rng, prog, case)
+    elif shape < 0.18:
+        # directed: a paused replication is ended by the caller and cleaned up /
+        # re-initialised at once, while the run thread is still finishing it
+        probe = devscommon.make_ref({"program": prog, "strategy": 3})
+        probe.initialize()
+        probe.run(probe.end, True)
+        n_exec = len([e for t, e in probe.trace if e != "W"])
+        if n_exec >= 2:
+            case["pause_at"] = [rng.randint(1, n_exec - 1)]
+            case.pop("listener_cmds", None)
+            directed = [["start"], ["settle"], ["end_replication_if_paused"]]
+            directed += rng.choice([[["cleanup"]], [["initialize"]], [["initialize"]],
+                                    [["sleep", 0.0005], ["cleanup"]],
+                                    [["sleep", 0.001], ["initialize"]]])
+            end_then = True
+    elif shape < 0.23:
+        # directed: the run thread is descheduled for more than start()'s handshake
+        # somewhere between wake-up and its first event, the caller's start()
+        # gives up waiting and stop() (or more) follows while the state is STARTING
+        stalled_start = True
     if directed is not None:
         cmds += directed
+    elif stalled_start:
+        cmds += [["start"], ["stop"]]
+        if rng.random() < 0.5:
+            cmds += [rng.choice([["start"], ["step"], ["stop"], ["settle"]])]
     elif shape < 0.2:
         for _ in range(rng.randint(1, 4)):
             cmds += [["start"], ["stop"]]
@@ -273,7 +299,17 @@ def gen_overlap(rng, seed, tier):
     if rng.random() < 0.2:
         # pre-emption between bytecodes of simulator.py instead of between lines
         sc["opcodes"] = True
-    if directed is not None:
+    if stalled_start:
+        sc.update(kind="site", q=rng.choice([0.3, 0.15]), p=0.0, d=rng.choice([1, 2, 3]),
+                  stall=0.7, stall_choices=[1.2, 1.5, 1.5])
+        sc.pop("eager", None)
+    if kind != "S0" and rng.random() < 0.4:
+        sc["refill"] = True      # the pre-emption budget d is per command, not per run
+    if end_then:
+        sc.update(kind=rng.choice(["site", "site", "pct"]), q=rng.choice([0.3, 0.15]),
+                  p=rng.choice([0.0, 0.02]), d=rng.choice([1, 2, 3]), refill=True)
+        sc.pop("eager", None)
+    elif directed is not None:
         # the caller reacts to the published pause at once; the run thread, still
         # in the tail of its iteration, is descheduled for about one step()
         sc["eager"] = [rng.choice([0.0005, 0.002, 0.002, 0.01, 0.05]), rng.randint(0, 30)]
@@ -516,6 +552,40 @@ def evaluate_overlap(case, r):
                                  "new start: %s" % (c["index"], c.get("where", "driver"),
                                                     p, [(x[1], x[2]) for x in late[:4]])))
                 break
+            if not c["callback"]:
+                # from the moment this stop wrote STOPPING, at most the event the
+                # run thread had already committed to may still start (whether or
+                # not stop() has returned yet)
+                label = "stop#%d" % c["index"]
+                own = next((x for x, h in enumerate(H[c["invoke_pos"]:p], c["invoke_pos"])
+                            if h[0] == "st" and (h[3] or "").startswith(label)
+                            and h[6] == "STOPPING"), None)
+                if own is not None:
+                    started = [h for x, h in enumerate(H[own:nxt], own) if h[0] == "exe"
+                               and not any(a < x < b for a, b in steps)]
+                    if len(started) > 1:
+                        findings.append(("accepted-stop-without-effect",
+                                         "stop #%d changed the run state to STOPPING at "
+                                         "history position %d, yet %d further handlers "
+                                         "started without a new start: %s"
+                                         % (c["index"], own, len(started),
+                                            [(x[1], x[2]) for x in started[:4]])))
+                        break
+    # a replication that the caller ended (accepted end_replication on a paused
+    # replication) must notify its end, whatever follows (cleanup / initialize at
+    # once included: they wait for the run thread)
+    for c in cmds:
+        if c["name"] == "end_replication" and not c["callback"] and c.get("outcome") == "ok" \
+                and c["before"][:2] == ("STOPPED", "STARTED"):
+            if not any(h[0] == "ntf" and h[1] == "END_REPLICATION"
+                       for h in H[c["invoke_pos"]:]):
+                findings.append(("end-not-notified",
+                                 "end_replication #%d was accepted on a paused replication "
+                                 "but END_REPLICATION was never notified (commands after "
+                                 "it: %s)" % (c["index"],
+                                              [d["name"] for d in cmds
+                                               if d["invoke_pos"] > c["invoke_pos"]][:3])))
+                break
     # a replication whose end became visible in the state must have notified it
     ended_pos = [i for i, h in enumerate(H) if h[0] == "st" and h[6] == "ENDED"
                  and h[7] == "ENDED" and h[2] != 0]
@@ -551,6 +621,12 @@ def evaluate_overlap(case, r):
     reps = lifecycle.replications(H)
     spoil = any(c["name"] in ("cleanup", "end_replication") and c.get("outcome") == "ok"
                 for c in cmds)
+    if case["program"].get("tc_listener") and any(
+            c["name"] == "run_up_to" and c.get("outcome") == "ok" for c in cmds):
+        # an exclusive bounded run moves the clock to its bound without announcing
+        # it: a model with a TIME_CHANGED subscriber that schedules events is then
+        # not comparable with the uninterrupted run
+        spoil = True
     if reps and not spoil and fin is not None:
         rp = reps[-1]
         got = devscommon.executed(H[rp["start"]:])
